@@ -102,6 +102,14 @@ func TestHistoryCaseShape(t *testing.T) {
 	}
 }
 
+func TestStackFuncs(t *testing.T) {
+	in := "goroutine 7 [running]:\nruntime/debug.Stack()\n\t/x/stack.go:26 +0x5e\npanic({0x818520?, 0xc00039e120?})\n\t/x/panic.go:783 +0x132\nmain.f(0xc000, {0x1, 0x2})\n\t/x/a.go:1 +0x1\n"
+	want := "runtime/debug.Stack\npanic\nmain.f\n"
+	if got := stackFuncs(in); got != want {
+		t.Fatalf("stackFuncs = %q, want %q", got, want)
+	}
+}
+
 func TestDiffObs(t *testing.T) {
 	a := observation{Asm: "x\ny\n", UsedVars: []string{"a"}, Output: "1"}
 	b := a
